@@ -105,10 +105,10 @@ impl DcpsDomainParticipant {
                                     }
                                 }
 
-                                fn compare_string(&self, lhs: &String, rhs: &String) -> bool {
+                                fn compare_string(&self, lhs: &String, rhs: &str) -> bool {
                                     match self {
-                                        Self::Equal => lhs == rhs,
-                                        Self::LessThan => lhs <= rhs,
+                                        Self::Equal => lhs.as_str() == rhs,
+                                        Self::LessThan => lhs.as_str() <= rhs,
                                     }
                                 }
                                 fn compare_int32(&self, lhs: &i32, rhs: &i32) -> bool {
@@ -122,18 +122,25 @@ impl DcpsDomainParticipant {
                             let mut operators = [Operator::LessThan, Operator::Equal].iter();
                             let filter = loop {
                                 if let Some(operator) = operators.next() {
-                                    if let Some((variable_name, _)) = content_filtered_topic
+                                    if let Some((variable_name, operand)) = content_filtered_topic
                                         .filter_expression
                                         .split_once(operator.to_str())
                                     {
-                                        break Some((variable_name, operator));
+                                        break Some((variable_name, operand, operator));
                                     }
                                 } else {
                                     break None;
                                 };
                             };
 
-                            if let Some((variable_name, comparison_function)) = filter {
+                            if let Some((variable_name, operand, comparison_function)) = filter {
+                                // `%n` or a literal; validated when the topic was created
+                                let Some(operand) = super::topic_entity::filter_operand(
+                                    operand,
+                                    &content_filtered_topic.expression_parameters,
+                                ) else {
+                                    continue 'data_readers;
+                                };
                                 let Some(member_id) =
                                     data.get_member_id_by_name(variable_name.trim())
                                 else {
@@ -151,9 +158,7 @@ impl DcpsDomainParticipant {
                                         let member_value = data.get_int32_value(member_id).unwrap();
                                         if !comparison_function.compare_int32(
                                             member_value,
-                                            &content_filtered_topic.expression_parameters[0]
-                                                .parse()
-                                                .expect("valid number"),
+                                            &operand.parse().expect("valid number"),
                                         ) {
                                             continue;
                                         }
@@ -175,7 +180,7 @@ impl DcpsDomainParticipant {
                                             data.get_string_value(member_id).unwrap();
                                         if !comparison_function.compare_string(
                                             member_value,
-                                            &content_filtered_topic.expression_parameters[0],
+                                            operand,
                                         ) {
                                             continue;
                                         }
